@@ -27,7 +27,10 @@ RULE = ("define/clear/evaluate histories: definition chains (N = kg*m/s^2, J = N
         "clear_unit_definitions().  The result's unit string is read back with the library's "
         "parser, expanded by the harness's own expansion and compared with exact dimensional "
         "analysis of the expanded operands (independent oracle) and with the Lean model.  "
-        "Non-trivial = a named unit with |exponent| >= 2 or a +/- with named and expanded operands")
+        "Non-trivial = a named unit with |exponent| >= 2 or a +/- with named and expanded operands.  "
+        "After the final clear also base-symbol operands whose result has the dimension of a power "
+        "of a former name; histories that start a new process (no reset before the first request: "
+        "definition, clear, style or evaluation first), executed in forks of a fresh interpreter")
 ASSUMPTIONS = ["definitions mention only base symbols and earlier names (no cycles: the code has no "
                "cycle check and would recurse without bound)",
                "the dimensionless-intermediate limitation of C08 applies (expanded dimension of "
@@ -176,6 +179,20 @@ def gen_history(rng):
         hist.append(["define-bad"] + UF.bad_define(rng, (), BASE))
     for t in trees:
         hist.append(["eval", t])
+    # "clearing the definitions restores the undecorated behaviour": operands written in BASE
+    # symbols whose result has exactly the dimension of a power of a FORMER name (the one place
+    # where a name that is remembered somewhere would show): by a random route, several powers
+    for name in rng.sample(names, min(len(names), 2)):
+        ex = X.expand([(name, F(1))], dh)
+        k = rng.choice([F(1), F(1), F(2), F(-1), F(3), F(1, 2)])
+        d = {s_: e * k for s_, e in ex.items() if e != 0}
+        if not d or not X.ok_exps(d):
+            continue
+        t = X.route(rng, d, rng.choice([1, 2, 2, 3]), None)
+        if X.tree_size(t) <= 50 and X.dim_tree(t, {})[0] == "ok" and X.float_ok(t, {}) and all(
+                X.dim_tree(x, {})[0] != "ok" or X.ok_exps(X.dim_tree(x, {})[1])
+                for x in X.subtrees(t)):
+            hist.append(["eval", t, {"former": True}])
     return hist
 
 
@@ -343,10 +360,69 @@ def gen_cases(rng, n, tags=None):
     return cases
 
 
+# ------------------------------------------------------------------ histories that start a process
+# Every history above runs after the harness's reset (which CLEARS the definitions): the first
+# define_unit of the process always comes after a clear.  A user's script defines its names first
+# thing.  A history marked ["fresh"] is executed in a new interpreter in which nothing has been
+# requested before its first step (forks of a clean room; `./check --replay` is such a process
+# too), and judged by the independent oracle there.  What the first request of the process is, is
+# a generated choice: a definition (most often), a clear, a style request, an evaluation.
+def gen_fresh(rng):
+    h = None
+    while h is None or not any(st[0] == "eval" for st in h):
+        h = gen_history(rng)
+    r = rng.random()
+    first = "define_unit"
+    if r < 0.12:
+        h, first = [["clear"]] + h, "clear_unit_definitions"
+    elif r < 0.24:
+        h, first = [["style", rng.random() < 0.5]] + h, "set_unit_style"
+    elif r < 0.36:
+        ev = [st for st in h if st[0] == "eval"][-1]        # evaluated after the final clear too
+        h, first = [list(ev)] + h, "an evaluation"
+    if h[0][0] != "define" and first == "define_unit":
+        first = "an evaluation" if h[0][0] == "eval" else h[0][0]
+    return [["fresh"]] + h, first
+
+
+def run_fresh(ctx, hists):
+    """each history in a fork of a fresh interpreter -> failures (independent oracle), counts"""
+    import common as C
+    failures, dist, evals = [], collections.Counter(), 0
+    with C.CleanRoom("props.c18") as room:
+        for h, first in hists:
+            dist["history in a new process (no reset before it)"] += 1
+            dist["new process: first request is " + first] += 1
+            if h[1][0] == "define" and any(st[0] == "clear" for st in h[2:]):
+                dist["new process: names defined before the first clear of the process, "
+                     "evaluations after it"] += 1
+            evals += sum(1 for st in h if st[0] == "eval")
+            dist["new process: result with the dimension of a power of a former name, after clear"] += \
+                sum(1 for st in h if st[0] == "eval" and len(st) > 2 and st[2].get("former"))
+            ans = room.replay({"history": h})
+            if ans.get("error"):
+                failures.append({"signature": "c18:clean-room:" + str(ans["error"])[:40],
+                                 "kind": "disagreement", "input": X.describe_prefix(h),
+                                 "what": "the clean room gave no answer: {}".format(ans["error"])})
+            for f in ans.get("failures") or []:
+                f = dict(f, history=h, carries_history=True, reproduces_alone=True,
+                         standalone="confirmed")
+                failures.append(f)
+    return failures, dict(dist), evals
+
+
 def correspond(ctx):
     tags = collections.Counter()
     cases = gen_cases(ctx.rng, ctx.n(120, 6000), tags)
+    fresh = [([["fresh"]] + h, h[0][0] if h[0][0] != "define" else "define_unit")
+             for h in corpus()[:ctx.n(6, 50)]]
+    fresh += [gen_fresh(ctx.rng) for _ in range(ctx.n(40, 400))]
+    cases += [h[1:] for h, _ in fresh[::2]]      # the same histories in this process, with the model
     r = X.run_cases(ctx, ID, cases)
+    ff, fd, fe = run_fresh(ctx, fresh)
+    r["failures"] += ff
+    r["evaluations"] += fe
+    r["distribution"].update(fd)
     r["distribution"].update(tags)
     for h in cases:
         for st in h:
@@ -360,6 +436,9 @@ def correspond(ctx):
             nontrivial.add(X.case_hash([dm, t]))
     r["nontrivial"] = nontrivial
     r["distribution"]["histories"] = len(cases)
+    r["distribution"]["evaluation after clear: dimension of a power of a former name, operands "
+                      "in base symbols"] = sum(1 for h in cases for st in h if st[0] == "eval"
+                                               and len(st) > 2 and st[2].get("former"))
     return r
 
 
@@ -370,6 +449,10 @@ def search(ctx, broken):
     out["failures"] += [f for f in r["failures"] if f.get("oracle") == "independent"]
     out["strategy"].append("harness expansion + exact dimensional analysis as oracle: {} "
                            "evaluations in {} histories".format(r["evaluations"], len(cases)))
+    ff, _, fe = run_fresh(ctx, [gen_fresh(ctx.rng) for _ in range(ctx.n(80, 400))])
+    out["failures"] += [f for f in ff if f.get("oracle") == "independent"]
+    out["strategy"].append("histories in a new process each (no reset before the first request): "
+                           "{} evaluations".format(fe))
     try:
         r = X.run_cases(ctx, ID, cases[:150], ref=True)
         for f in r["failures"]:
